@@ -161,3 +161,11 @@ package pseudonymization
 
 // The retry limit of token generation is fixed when the anonymizer is built.
 //@ structural retry-limit-immutable props C10 C14 : field-readonly pseudoanonymizer.dataGenerationLoopLimit allow NewPseudoanonymizer
+
+// Bound parameters of tokenized search conditions (PostgreSQL): placeholder numbers come from the client's SQL text
+// ($0, $1, $99999 ...); only positions that exist among the bound values reach the replacement step (C10, C14).
+//@ func (encryptor *PostgreSQLTokenizeQuery) OnBind(ctx context.Context, parseResult *pg_query.ParseResult, values []base.BoundValue) (out []base.BoundValue, changed bool, err error)
+//@   props C10 C14
+//@   noinline *
+//@   loop 0 invariant only-existing-positions: forall(j, 0, len(indexes), 0 <= indexes[j] && indexes[j] < len(values))
+//@   at call PostgreSQLTokenizeQuery.replaceValuesWithTokenizedData : assert arg[0] == ctx && sameslice(arg[1], values) && sameslice(arg[2], indexes)
